@@ -1586,6 +1586,12 @@ def format_value(I: Any, x: Term, spec: str, st: Any, ctx: Any, node: ast.AST) -
             return ("seq", "s", (("alt", x[1], a, b),))
         if is_int_term(x):
             return ("seq", "s", (("fmt", "d", x),))
+        if x[0] == "obj" and st is not None and x[1] in st.heap and st.heap[x[1]].cls is not None:
+            # str() / format() of a repository instance is its own __str__ (the dataclass / object repr otherwise: not modelled)
+            m_ = st.heap[x[1]].cls.find_method("__str__")
+            if m_ is not None:
+                return I.call_user_nested(("bound", x, m_), [], {}, st, ctx, node)
+            return top(f"text of an instance of {st.heap[x[1]].cls.name} (its repr) is not modelled")
         return text_of(app("str", [x]))
     tmf = tm_field_text(x, spec)
     if tmf is not None:
@@ -1980,6 +1986,8 @@ def call_method(I: Any, recv: Term, name: str, args: List[Term], kwargs: Dict[st
             if name == "sort":
                 if all(is_c(x) for x in ho.items):
                     ho.items.sort(key=lambda x: x[1])
+                elif len(ho.items) <= 1:
+                    pass          # nothing to reorder
                 else:
                     ho.items = [("sorted-elem", tuple(ho.items), i) for i in range(len(ho.items))]
                 return c(None)
